@@ -13,7 +13,7 @@ LEVEL = "exploration"
 RULE = ("Schedules are inputs: (a) Hypothesis-generated (2-3 concurrent operations from {shell/exec_out with 0..4 chunks, streaming_shell, stat, list, small pull, push of 0..9000 bytes}, scheduler choice tape or seeded whole-run pseudo-random schedule with switch probability 0.1-0.8, "
         "device packet-order tape, eager/strict CLSE, CLSE(0,id) replies, legacy packets addressed with a zero host id, transport flavour) under the cooperative THREAD scheduler (yield points: lock acquire/release, every transport call; also, in a third of the thread cases, every line of "
         "_AdbIOManager.read/send and the packet store, or every line of the filesync helpers) and the deterministic asyncio TASK scheduler; (b) complete preemption-bounded enumeration (<=1 preemption quick, <=2 thorough) over all yield points "
-        "of 10 fixed workloads (two of them with a concurrent close(), judged for deadlock/wrong data only) x 2 device tapes, threads and tasks; (c) two streaming_shell generators advanced alternately in one thread. Oracle: each operation's result equals the model's value (what it "
+        "of 10 fixed workloads (two of them with a concurrent close(), judged for deadlock/wrong data only) x 2 device tapes, threads and tasks; (c) two streaming_shell generators advanced alternately in one thread; (d) two device objects (two simulators) used alternately by one thread, with suspended generators, whole commands and a reconnect of the other device in between. Oracle: each operation's result equals the model's value (what it "
         "returns alone); no deadlock (no runnable worker) and no step-budget exhaustion. A run whose only deviations are timeouts and in which the put-observer saw a live stream's CLSE discarded is counted "
         "as known finding K1. Non-trivial: >= 1 packet was read by a worker that did not own it. Distinct = case hash / (workload, plan).")
 ASSUMPTIONS = ["scheduler yield points: lock acquire/release and transport calls (plus traced lines in the thorough tier); switches inside C calls are not modelled",
@@ -245,7 +245,78 @@ def check_generators(case):
     return Violation("wrong-interleaved-result", "generator %d yielded %r (exception %r), device wrote %r; dropped CLSE %r" % (g, got[g], excs[g], want[g], dropped)), info
 
 
+# ----------------------------------------------------------------------------- two device objects in one process
+@st.composite
+def two_device_cases(draw):
+    def chunks(tag):
+        return draw(st.lists(st.binary(min_size=1, max_size=4).map(lambda b, tag=tag: b"<" + tag + b + b">"), min_size=1, max_size=4))
+    return {"x": {"services": {b"shell:g": chunks(b"Xg"), b"shell:c": chunks(b"Xc")}},
+            "y": {"services": {b"shell:g": chunks(b"Yg"), b"shell:c": chunks(b"Yc")}},
+            "steps": draw(st.lists(st.sampled_from(["x-next", "y-next", "x-shell", "y-shell", "y-reconnect", "x-next", "y-next"]), min_size=2, max_size=12)),
+            "flavour": draw(sc.flavour()), "same_rids": draw(st.booleans())}
+
+
+def check_two_devices(case):
+    """Two AdbDevice objects (two physical devices) used alternately by one thread: streams of one device never see the other's packets."""
+    conc.obs_reset()
+    try:
+        outs = {}
+        for name in ("x", "y"):
+            scn = {"api": "sync", "device": dict(case[name], rids=[] if case["same_rids"] else ([5000] if name == "y" else [])),
+                   "transport": {"flavour": case["flavour"], "log_calls": False}}
+            outs[name] = runner.build(scn, async_=False)
+        outs["x"].sim.clock = outs["y"].clock
+        outs["x"].core.clock = outs["y"].clock
+        devs = {n: outs[n].device for n in outs}
+        for d in devs.values():
+            d.connect()
+        gens = {n: devs[n].streaming_shell("g", decode=False) for n in devs}
+        got = {"x": [], "y": []}
+        done = {"x": False, "y": False}
+        errs = []
+        shells = []
+        for step in list(case["steps"]) + ["x-next", "y-next"] * 6:
+            n, act = step.split("-")
+            try:
+                if act == "next":
+                    if not done[n]:
+                        try:
+                            got[n].append(next(gens[n]))
+                        except StopIteration:
+                            done[n] = True
+                elif act == "shell":
+                    shells.append((n, devs[n].shell("c", decode=False)))
+                elif act == "reconnect" and done[n]:
+                    devs[n].close()
+                    devs[n].connect()
+            except Exception as e:  # noqa
+                errs.append((step, e))
+                if act == "next":
+                    done[n] = True
+    finally:
+        conc.OBS["active"] = False
+    info = {"classes": ["two-devices"], "nontrivial": conc.OBS["puts"] >= 1,
+            "sample": {"steps": case["steps"], "x": case["x"]["services"][b"shell:g"], "y": case["y"]["services"][b"shell:g"], "foreign_reads": conc.OBS["puts"]}}
+    bad = []
+    for n in ("x", "y"):
+        if got[n] != case[n]["services"][b"shell:g"]:
+            bad.append("device %s generator yielded %r, its device wrote %r" % (n, got[n], case[n]["services"][b"shell:g"]))
+    for n, r in shells:
+        if r != b"".join(case[n]["services"][b"shell:c"]):
+            bad.append("device %s shell returned %r, its device wrote %r" % (n, r, case[n]["services"][b"shell:c"]))
+    if not bad and not errs:
+        return None, info
+    only_timeouts = all(type(e).__name__ in ("AdbTimeoutError", "TcpTimeoutException") for _, e in errs)
+    prefixes_ok = all(got[n] == case[n]["services"][b"shell:g"][:len(got[n])] for n in got) and all(r == b"".join(case[n]["services"][b"shell:c"]) for n, r in shells)
+    if errs and only_timeouts and prefixes_ok and conc.OBS["dropped_clse"] and not conc.OBS["dropped_clse_with_entry"]:
+        return Violation("K1-clse-of-live-stream-discarded", "two devices: CLSE %r discarded" % conc.OBS["dropped_clse"], signature="K1"), info
+    return Violation("cross-device-interference", "; ".join(bad) + ("; errors: %r" % [(s_, type(e).__name__, str(e)[:80]) for s_, e in errs] if errs else "")), info
+
+
 def replay(part, case):
+    if part == "two-devices":
+        v = check_two_devices(case)[0]
+        return None if (v is not None and v.signature in harness.KNOWN) else v
     if part == "enum":
         v = check_enum(case)[0]
     elif part == "generators":
@@ -264,6 +335,7 @@ def run(tier, seed):
     col.merge(harness.hypothesis_part("random", workloads(api="sync"), check_random, 2500 if quick else 60000, seed, shrink=not quick))
     col.merge(harness.hypothesis_part("random", workloads(api="async"), check_random, 5000 if quick else 120000, seed, shrink=not quick))
     col.merge(harness.hypothesis_part("generators", generator_cases(), check_generators, 2000 if quick else 40000, seed, shrink=not quick))
+    col.merge(harness.hypothesis_part("two-devices", two_device_cases(), check_two_devices, 1500 if quick else 30000, seed, shrink=not quick))
 
     def strip(c):
         v, info = check_enum(c)
